@@ -82,7 +82,27 @@ Theorem C01_guard_set_after_retire :
 Proof. exact hp_guard_set_after_retire. Qed.
 Print Assumptions C01_guard_set_after_retire.
 
-(** The full statement, NOT proved (kept visible).  Client discipline, as a predicate on the trace:
+(** (3) reduction of the full statement to three facts about the client's guard: if (a) slot (r,j) held p from
+    some step g0 up to the step v at which protect returned, (b) p had not been passed to retire() before g0,
+    (c) nothing is stored into slot (r,j) between v and d, then no disposer call on p can happen at d. *)
+Theorem C01_guarded_ptr_live_reduction :
+  forall (c : cfgT) (ths : list (list op)) cf,
+    Conc.reach (Hp.init_cfg c ths) cf ->
+    forall v d t p g0 r j,
+      (v < d)%nat -> p <> 0 ->
+      (cInplace c = true -> retire_once (firstn d (Conc.trace cf))) ->
+      nth_error (Conc.trace cf) d = Some (t, ev_dispose p) ->
+      (g0 <= S v)%nat -> held (firstn (S v) (Conc.trace cf)) g0 r j p ->
+      ~ retired_before (Conc.trace cf) g0 p ->
+      (forall i te, (S v <= i < S d)%nat -> nth_error (Conc.trace cf) i = Some te -> slot_write r j (snd te) = false) ->
+      False.
+Proof. exact hp_guarded_ptr_live_from_slot_facts. Qed.
+Print Assumptions C01_guarded_ptr_live_reduction.
+
+(** The full statement, NOT proved (kept visible).  What remains is to derive (a), (b), (c) of the reduction above
+    from the client discipline: (a)+(c) need "only the thread attached to record r stores into its slots, and only
+    inside protect/assign/clear/copy/detach" as a trace fact; (b) needs the history of the client sources (protect's
+    re-load saw p in the source => p not unlinked yet => not retired yet).  Client discipline, as a predicate on the trace:
     every object is published at most once and retired at most once, an object that was ever published is retired
     only by the thread that unlinked it, right after the unlinking exchange; guards are taken by protect() on a
     source (or by copying a live guard into a HIGHER slot, not expressed below); under it, between the event
@@ -140,7 +160,17 @@ Example C01_inplace_double_retire :
   slot_at (firstn 28 tr) 0 0 = 4 /\ slot_at (firstn 12 tr) 0 0 = 4.
 Proof. vm_compute. repeat split; reflexivity. Qed.
 
-(** Input the code does not reject: retired capacity R = H*P exactly (basic_smr::basic_smr only replaces R < H*P).
+(** The retired arrays never overflow when thread_list_ holds at most P records, R > H*P and no object is retired
+    twice (then a scan of a full array keeps at most H*P cells). *)
+Theorem C01_no_overflow :
+  forall (c : cfgT) (ths : list (list op)) cf,
+    Conc.reach (Hp.init_cfg c ths) cf ->
+    (List.length (g_list (Conc.shared cf)) <= cP c)%nat -> (cH c * cP c < cR c)%nat -> retire_once (Conc.trace cf) ->
+    forall p, cnt "overflow" p (Conc.trace cf) = 0.
+Proof. exact hp_no_overflow. Qed.
+Print Assumptions C01_no_overflow.
+
+(** Input the code did not reject before /repo 756de95: retired capacity R = H*P exactly (basic_smr::basic_smr only replaces R < H*P).
     HP(1,2,2): thread 1 guards object 6, thread 0 guards object 4 and retires 4 and 6: the array is full, the scan
     frees nothing, and the next retire() writes past the array (undefined behaviour in C++; the model reports it
     as the client event "overflow").  With R > H*P and at most P thread records a scan of a full array always
